@@ -89,7 +89,13 @@ pub fn norm_loc(file: &str, line: u32) -> String {
 /// Install a panic hook that records message+location instead of printing.
 pub fn install_quiet_panic_hook() {
     std::panic::set_hook(Box::new(|info| {
+        // the location used in signatures carries no line number (a line shift elsewhere in the file
+        // must not turn a known panic into a new one); the line goes into the message
         let loc = info.location().map(|l| norm_loc(l.file(), l.line())).unwrap_or_default();
+        let (loc, line) = match loc.rsplit_once(':') {
+            Some((a, b)) if b.chars().all(|c| c.is_ascii_digit()) => (a.to_string(), b.to_string()),
+            _ => (loc.clone(), String::new()),
+        };
         let msg = if let Some(s) = info.payload().downcast_ref::<&str>() {
             s.to_string()
         } else if let Some(s) = info.payload().downcast_ref::<String>() {
@@ -98,7 +104,7 @@ pub fn install_quiet_panic_hook() {
             "<non-string panic>".to_string()
         };
         let short: String = msg.chars().take(300).collect();
-        LAST_PANIC.with(|p| *p.borrow_mut() = Some(format!("{loc} {short}")));
+        LAST_PANIC.with(|p| *p.borrow_mut() = Some(format!("{loc} line {line}: {short}")));
         if std::env::var("VERIF_VERBOSE_PANIC").is_ok() {
             eprintln!("panic: {loc} {short}");
         }
